@@ -268,8 +268,10 @@ public:
 	}
 	inline void set_instance(T *ref)
 	{
-		if (_ref) _ref->unref();
+		/* store first: releasing the old referent may destroy the owner of this handle */
+		T *old = _ref;
 		_ref = ref;
+		if (old) old->unref();
 	}
 	inline reference & operator= (reference const &ref)
 	{
@@ -280,8 +282,10 @@ public:
 		if (r && !r->addref()) {
 			r = 0;
 		}
-		if (_ref) _ref->unref();
+		/* store first: releasing the old referent may destroy the owner of this handle */
+		T *old = _ref;
 		_ref = r;
+		if (old) old->unref();
 		return *this;
 	}
 #if __cplusplus >= 201103L
